@@ -25,3 +25,12 @@ def run(ctx):
     ctx.extra["expect_error"] = summ["expect_error"]
     pscommon.absorb(ctx, summ, "vh replay-ps (MC_PSOps, tier %s)" % ctx.tier, "PSOps!DataOp")
     pscommon.negative_control(ctx, vec, base)
+    # longer programs: seeded random walks in which the environment feeds tokens that the
+    # specification says are in the operators' domains (MC_PSProg family feed)
+    n = 1500 if ctx.tier == "quick" else 40000
+    consts = {"Tier": '"quick"', "StepBound": "400", "MaxBudget": "1", "FeedLen": "24", "Family": '"feed"'}
+    s2, _, _ = pscommon.run_mbt(ctx, "MC_PSProg", consts, "psfeed", base_heap="FreshHeap", invariants=("Emit", "Inv"),
+                                simulate=n, depth=200, workers=1)
+    pscommon.absorb(ctx, s2, "vh replay-ps (MC_PSProg feed, simulation seed %d)" % ctx.seed, "PSMachine!Step on fed programs")
+    ctx.extra["fed_programs"] = s2["vectors"]
+    ctx.extra["fed_programs_ending_ok"] = s2["expect_ok"]
